@@ -423,12 +423,12 @@ func plainUntyped(text string) bool {
 		return false
 	}
 	inStr, start := false, 0
+	_ = start
 	for i := 0; i < len(text); i++ {
 		c := text[i]
 		if c == '"' {
-			if inStr && i-start-1 > stackitem.MaxKeySize {
-				return false // (a long string VALUE would be fine; keys and values are not told apart here)
-			}
+			// (strings of any length: a property name over MaxKeySize is refused by the decoder since d98706e and by
+			// the model, a long string VALUE is fine)
 			inStr, start = !inStr, i
 			continue
 		}
@@ -465,6 +465,9 @@ func genPlainJSON(r *prng.R, depth int, budget *int) string {
 		case 1:
 			return []string{"true", "false"}[r.Intn(2)]
 		case 2:
+			if r.Chance(1, 8) {
+				return `"` + strings.Repeat("v", 60+r.Intn(10)) + `"` // a string VALUE around and over MaxKeySize
+			}
 			return `"` + string(printable(r, r.Intn(5))) + `"`
 		default:
 			return fmt.Sprint(int64(r.Intn(2000)) - 1000)
@@ -482,6 +485,9 @@ func genPlainJSON(r *prng.R, depth int, budget *int) string {
 		k := string(rune('a' + i))
 		if r.Chance(1, 12) && i > 0 {
 			k = "a" // a repeated property
+		}
+		if r.Chance(1, 10) {
+			k = strings.Repeat("k", stackitem.MaxKeySize-2+r.Intn(4)) + k // MaxKeySize-1 .. MaxKeySize+2 bytes
 		}
 		*budget--
 		parts = append(parts, `"`+k+`":`+genPlainJSON(r, depth-1, budget))
@@ -506,7 +512,7 @@ func (rn *runner) untypedTie(text string, maxCount int) {
 		showItem(&s, v, 0)
 		obs = "ok " + s.String()
 	} else if err.Error() == "panic" {
-		return
+		obs = "panic" // (the model never says so: a panic of the real decoder is a disagreement, besides the oracle key)
 	}
 	rn.o.Line(fmt.Sprintf("jsonu dec %d %s", maxCount, hx.Hex([]byte(text))), obs)
 	rn.o.Count("json:untyped:tie:" + strings.Fields(obs)[0])
@@ -515,8 +521,9 @@ func (rn *runner) untypedTie(text string, maxCount int) {
 // lastUntypedPanic: what the last panicking FromJSON said (to name the failure precisely).
 var lastUntypedPanic string
 
-// untypedPanicKey: a key over MaxKeySize bytes still makes Map.Add panic (not touched by fix ea79830); any other
-// panic of FromJSON is a regression of that fix or something new.
+// untypedPanicKey: a property name over MaxKeySize bytes made Map.Has / Map.Add panic until d98706e (decodeMap now
+// calls IsValidMapKey first); numbers beyond 256 bits panicked until ea79830. Both oracles stay live: a panic that
+// mentions the map key is a regression of the former, any other one of the latter or something new.
 func untypedPanicKey() string {
 	if strings.Contains(lastUntypedPanic, "map key") {
 		return "itemjson-untyped-key-panic"
@@ -636,6 +643,15 @@ func jsonCorpus() []corpusCase {
 				if decodeUntyped(t, best) == "panic" {
 					rn.o.Fail(untypedPanicKey(), k, "FromJSON(bestIntPrecision=%v) panics (%s) on %s", best, lastUntypedPanic, trunc(t, 100))
 				}
+			}
+		}
+		// property names around MaxKeySize against the model (d98706e: IsValidMapKey before Has and before the value):
+		// 64 accepted, 65 refused — first in the object, after another property, repeated, with no count left, nested
+		k64, k65 := strings.Repeat("k", stackitem.MaxKeySize), strings.Repeat("k", stackitem.MaxKeySize+1)
+		for _, t := range []string{`{"` + k64 + `":1}`, `{"` + k65 + `":1}`, `{"a":1,"` + k65 + `":2}`, `{"` + k65 + `":1,"` + k65 + `":2}`,
+			`{"` + k64 + `":1,"` + k64 + `":2}`, `[{"` + k65 + `":[]}]`, `{"a":{"` + k65 + `":null}}`, `{"` + k65 + `":`, `{"` + k65 + `":x}`, `"` + k65 + `"`, `["` + k65 + k65 + `"]`} {
+			for _, mc := range []int{1, 2, 3, 2048} {
+				rn.untypedTie(t, mc)
 			}
 		}
 		rn.o.Seen("corpus/json/untyped")
